@@ -32,6 +32,9 @@ pub trait Dyn1<T> {
     fn interp_into(&self, q: T, buf: ArrayViewMutD<'_, T>) -> Result<(), InterpolateError>;
     fn interp_array(&self, q: ArrayViewD<'_, T>, qr: QRank) -> Result<ArrayD<T>, InterpolateError>;
     fn interp_array_into(&self, q: ArrayViewD<'_, T>, qr: QRank, buf: ArrayViewMutD<'_, T>) -> Result<(), InterpolateError>;
+    /// interp_array with an owned / shared (ArcArray) query array instead of a view
+    fn interp_array_q_owned(&self, q: ArrayD<T>, qr: QRank) -> Result<ArrayD<T>, InterpolateError>;
+    fn interp_array_q_shared(&self, q: ndarray::ArcArray<T, IxDyn>, qr: QRank) -> Result<ArrayD<T>, InterpolateError>;
     fn index_point(&self, i: usize) -> (T, ArrayD<T>);
     fn is_in_range(&self, q: T) -> bool;
     fn get_index_left_of(&self, q: T) -> usize;
@@ -43,6 +46,8 @@ pub trait Dyn2<T> {
     fn interp_into(&self, x: T, y: T, buf: ArrayViewMutD<'_, T>) -> Result<(), InterpolateError>;
     fn interp_array(&self, xs: ArrayViewD<'_, T>, ys: ArrayViewD<'_, T>, qr: QRank) -> Result<ArrayD<T>, InterpolateError>;
     fn interp_array_into(&self, xs: ArrayViewD<'_, T>, ys: ArrayViewD<'_, T>, qr: QRank, buf: ArrayViewMutD<'_, T>) -> Result<(), InterpolateError>;
+    fn interp_array_q_owned(&self, xs: ArrayD<T>, ys: ArrayD<T>, qr: QRank) -> Result<ArrayD<T>, InterpolateError>;
+    fn interp_array_q_shared(&self, xs: ndarray::ArcArray<T, IxDyn>, ys: ndarray::ArcArray<T, IxDyn>, qr: QRank) -> Result<ArrayD<T>, InterpolateError>;
     fn index_point(&self, i: usize, j: usize) -> (T, T, ArrayD<T>);
     fn is_in_x_range(&self, x: T) -> bool;
     fn is_in_y_range(&self, y: T) -> bool;
@@ -113,6 +118,24 @@ macro_rules! impl_dyn1 {
                         let qq = q.into_dimensionality::<$Dq>().unwrap();
                         let b = buf.into_dimensionality::<<$Dq as DimAdd<<$D as Dimension>::Smaller>>::Output>().unwrap_or_else(|_| rank_panic("interp_array_into buffer"));
                         Interp1D::interp_array_into(self, &qq, b)
+                    }};
+                }
+                q_dispatch!(q, qr, call)
+            }
+            fn interp_array_q_owned(&self, q: ArrayD<T>, qr: QRank) -> Result<ArrayD<T>, InterpolateError> {
+                macro_rules! call {
+                    ($Dq:ty) => {{
+                        let qq = q.into_dimensionality::<$Dq>().unwrap();
+                        Interp1D::interp_array(self, &qq).map(|a| a.into_dyn())
+                    }};
+                }
+                q_dispatch!(q, qr, call)
+            }
+            fn interp_array_q_shared(&self, q: ndarray::ArcArray<T, IxDyn>, qr: QRank) -> Result<ArrayD<T>, InterpolateError> {
+                macro_rules! call {
+                    ($Dq:ty) => {{
+                        let qq = q.into_dimensionality::<$Dq>().unwrap();
+                        Interp1D::interp_array(self, &qq).map(|a| a.into_dyn())
                     }};
                 }
                 q_dispatch!(q, qr, call)
@@ -189,6 +212,26 @@ macro_rules! impl_dyn2 {
                             .into_dimensionality::<<$Dq as DimAdd<<<$D as Dimension>::Smaller as Dimension>::Smaller>>::Output>()
                             .unwrap_or_else(|_| rank_panic("interp_array_into buffer"));
                         Interp2D::interp_array_into(self, &xq, &yq, b)
+                    }};
+                }
+                q_dispatch!(xs, qr, call)
+            }
+            fn interp_array_q_owned(&self, xs: ArrayD<T>, ys: ArrayD<T>, qr: QRank) -> Result<ArrayD<T>, InterpolateError> {
+                macro_rules! call {
+                    ($Dq:ty) => {{
+                        let xq = xs.into_dimensionality::<$Dq>().unwrap();
+                        let yq = ys.into_dimensionality::<$Dq>().unwrap_or_else(|_| rank_panic("ys"));
+                        Interp2D::interp_array(self, &xq, &yq).map(|a| a.into_dyn())
+                    }};
+                }
+                q_dispatch!(xs, qr, call)
+            }
+            fn interp_array_q_shared(&self, xs: ndarray::ArcArray<T, IxDyn>, ys: ndarray::ArcArray<T, IxDyn>, qr: QRank) -> Result<ArrayD<T>, InterpolateError> {
+                macro_rules! call {
+                    ($Dq:ty) => {{
+                        let xq = xs.into_dimensionality::<$Dq>().unwrap();
+                        let yq = ys.into_dimensionality::<$Dq>().unwrap_or_else(|_| rank_panic("ys"));
+                        Interp2D::interp_array(self, &xq, &yq).map(|a| a.into_dyn())
                     }};
                 }
                 q_dispatch!(xs, qr, call)
@@ -381,5 +424,51 @@ pub fn err_kind_b(e: &BuilderError) -> &'static str {
         BuilderError::Monotonic(_) => "Monotonic",
         BuilderError::ShapeError(_) => "ShapeError",
         BuilderError::ValueError(_) => "ValueError",
+    }
+}
+
+/// element types of the Linear / Bilinear strategies (weaker than SplineNum: covers i32, i64)
+pub trait LinNum: num_traits::Num + PartialOrd + num_traits::NumCast + Copy + Debug + std::ops::Sub + Send + 'static {}
+impl<T: num_traits::Num + PartialOrd + num_traits::NumCast + Copy + Debug + std::ops::Sub + Send + 'static> LinNum for T {}
+
+/// Linear interpolator (extrapolating) over the given data storage, for any Linear-capable element type
+pub fn build_linear<'a, T: LinNum, S: Data<Elem = T> + 'a>(x: Array1<T>, data: ArrayBase<S, IxDyn>, dynamic: bool) -> Result<Box<dyn Dyn1<T> + 'a>, BuilderError> {
+    macro_rules! go {
+        ($D:ty) => {{
+            let d = data.into_dimensionality::<$D>().unwrap();
+            Interp1DBuilder::new(d).x(x).strategy(Linear::new().extrapolate(true)).build().map(|i| Box::new(i) as Box<dyn Dyn1<T> + 'a>)
+        }};
+    }
+    if dynamic {
+        return go!(IxDyn);
+    }
+    match data.ndim() {
+        1 => go!(Ix1),
+        2 => go!(Ix2),
+        3 => go!(Ix3),
+        4 => go!(Ix4),
+        5 => go!(Ix5),
+        6 => go!(Ix6),
+        _ => go!(IxDyn),
+    }
+}
+/// Bilinear interpolator (extrapolating) over the given data storage
+pub fn build_bilinear<'a, T: LinNum, S: Data<Elem = T> + 'a>(x: Array1<T>, y: Array1<T>, data: ArrayBase<S, IxDyn>, dynamic: bool) -> Result<Box<dyn Dyn2<T> + 'a>, BuilderError> {
+    macro_rules! go {
+        ($D:ty) => {{
+            let d = data.into_dimensionality::<$D>().unwrap();
+            Interp2DBuilder::new(d).x(x).y(y).strategy(Bilinear::new().extrapolate(true)).build().map(|i| Box::new(i) as Box<dyn Dyn2<T> + 'a>)
+        }};
+    }
+    if dynamic {
+        return go!(IxDyn);
+    }
+    match data.ndim() {
+        2 => go!(Ix2),
+        3 => go!(Ix3),
+        4 => go!(Ix4),
+        5 => go!(Ix5),
+        6 => go!(Ix6),
+        _ => go!(IxDyn),
     }
 }
